@@ -21,16 +21,19 @@ def layoutCluster : List (String × String) := [("Controller", "_.ControllerID")
 def layoutTopic : List (String × String) := [("Error", "_.ErrorCode"), ("Name", "_.Name"), ("Partitions", "makePartitions(_.Partitions)")]
 def layoutPartition : List (String × String) := [("Error", "_.ErrorCode"), ("ID", "_.PartitionIndex"), ("Leader", "_.LeaderID")]
 
+def filterPlaceholder : List (String × String) := [("ErrorCode", "int16(UnknownTopicOrPartition)"), ("Name", "_")]
+
 /-! ### metadata.go Client.Metadata, conn.go ReadPartitions (C19) -/
 def userBroker : List (String × String) := [("Host", "_.Host"), ("ID", "int(_.NodeID)"), ("Port", "int(_.Port)"), ("Rack", "_.Rack")]
 def metaPartition : List (String × String) :=
-  [("Error", "makeError(_.ErrorCode,\"\")"), ("ID", "int(_.PartitionIndex)"), ("Leader", "_[_.LeaderID]"), ("Topic", "_.Name")]
+  [("Error", "makeError(_.ErrorCode,\"\")"), ("ID", "int(_.PartitionIndex)"), ("Leader", "makeBrokers(_,_.LeaderID)[0]"),
+   ("Replicas", "makeBrokers(_,_.ReplicaNodes)"), ("Isr", "makeBrokers(_,_.IsrNodes)"), ("Topic", "_.Name")]
 def metaTopic : List (String × String) := [("Error", "makeError(_.ErrorCode,\"\")"), ("Internal", "_.IsInternal"), ("Name", "_.Name")]
 def metaResponse : List (String × String) := [("ClusterID", "_.ClusterID"), ("Throttle", "makeDuration(_.ThrottleTimeMs)")]
 def metaRequest : List (String × String) := [("TopicNames", "_.Topics")]
 def connPartition : List (String × String) :=
-  [("ID", "int(_.PartitionID)"), ("Isr", "makeBrokers(_,_.Isr)"), ("Leader", "_[_.Leader]"),
-   ("Replicas", "makeBrokers(_,_.Replicas)"), ("Topic", "_.TopicName")]
+  [("ID", "int(_.PartitionID)"), ("Isr", "makeBrokers(_,_.Isr)"), ("Leader", "makeBrokers(_,_.Leader)[0]"),
+   ("Replicas", "makeBrokers(_,_.Replicas)"), ("Topic", "_.TopicName"), ("Error", "makeError(_.PartitionErrorCode,\"\")")]
 def connPartitionV6 : List (String × String) := connPartition ++ [("OfflineReplicas", "makeBrokers(_,_.OfflineReplicas)")]
 
 /-! ### offsetfetch.go / offsetcommit.go / listoffset.go (C19) -/
